@@ -2289,6 +2289,16 @@ class Fouriergate(Gate):
     def __init__(self):
         super().__init__([np.pi / 2])
 
+    def merge(self, other):
+        if not self.__class__ == other.__class__:
+            raise MergeFailure("Not the same gate family.")
+
+        # the Fourier gate has no free parameter: it can only cancel with its inverse
+        if self.dagger != other.dagger:
+            return None
+
+        raise MergeFailure("Fourier gates can only be merged with their inverse.")
+
     def _decompose(self, reg, **kwargs):
         # into a rotation
         theta = np.pi / 2
